@@ -48,7 +48,7 @@ LEAF_KW = [("type", "string"), ("type", ["string", "null"]), ("minLength", 3), (
 @st.composite
 def scripts(draw):
     out = {}
-    for n in draw(st.lists(st.sampled_from(["s1", "s2", "ipv4", "date", ""]), min_size=1, max_size=3, unique=True)):
+    for n in draw(st.lists(st.sampled_from(["s1", "s2", "ipv4", "date", "", "100%", "%s"]), min_size=1, max_size=3, unique=True)):
         out[n] = {"listed": draw(st.sampled_from([[], ["ListedA"], ["ListedA", "ListedB"], ["ListedK"],
                                                   ["ListedB", "ListedK", "ListedA"], ["KeyError"]])),
                   "default": draw(st.sampled_from(BEHAVIOURS)),
